@@ -211,6 +211,12 @@ func genC25(seed uint64, tier string) *Case {
 		case x < 6:
 			c.Steps = append(c.Steps, Step{Op: "query", F: g.Bool(0.6), D: int64(g.Pick(100, 300, 1000))})
 		case x < 7:
+			if g.Bool(0.4) {
+				// a stream request that re-uses the sequence number of an open stream: refused,
+				// and the open stream goes on with its own filter
+				c.Steps = append(c.Steps, Step{Op: "restream", K: g.Intn(4), S: filters[g.Intn(len(filters))]})
+				continue
+			}
 			c.Steps = append(c.Steps, Step{Op: "stop", K: g.Intn(4)})
 		case x < 12:
 			c.Steps = append(c.Steps, Step{Op: "ev", S: []string{"user", "user", "member", "query"}[g.Intn(4)], T: []string{"deploy", "other", "q1", "q2"}[g.Intn(4)]})
@@ -423,6 +429,16 @@ func execC25(r *Run) {
 			reqSeqs[seq] = "stream"
 			cl.send("stream", seq, map[string]any{"Type": s.S})
 			streams = append(streams, &c25Stream{seq: seq, filter: s.S})
+		case "restream":
+			if len(streams) == 0 {
+				continue
+			}
+			st := streams[s.K%len(streams)]
+			if st.stopped {
+				continue
+			}
+			cl.send("stream", st.seq, map[string]any{"Type": s.S})
+			r.Fault("stream-request-with-seq-in-use")
 		case "stop":
 			if len(streams) == 0 {
 				continue
